@@ -59,6 +59,11 @@ def obligations(tier, ctx):
         params = [("method", "str"), ("psel", "int")] + ([("rid", "int")] if idk == "int" else [])
         call = "H.dispatch(method, %s, %s, psel, 'x', 0)" % ("True" if idk == "int" else "False", "rid" if idk == "int" else "None")
         obs.append(Ob(name=f"anymethod_id{idk}", params=params, pre=["1 <= len(method) <= 3", "0 <= psel <= 2"], call=call, backend="F", timeout=300, family="arbitrary method strings"))
+    # a session id is presented with the message: none / live / unknown / long idle (age in seconds symbolic, unbounded)
+    for has in (True, False):
+        obs.append(Ob(name=f"session_{'id' if has else 'noid'}", params=[("mi", "int"), ("rid", "int"), ("sm", "int"), ("age", "int")],
+                      pre=["mi in (1, 2, 3, 8, 12)", "0 <= sm <= 3", "0 <= age"],
+                      call=f"H.dispatch_session(mi, {has}, rid if {has} else None, sm, age, 0)", backend="F", timeout=300, family="dispatch with a session id (live, unknown, long idle)"))
     # failing handlers: exception text from a corpus (empty, multi-line, control characters, long) by symbolic index
     for meth, psel in (("custom/raise", 0), ("notifications/custom_fail", 0), ("tools/call", 8), ("resources/read", 7)):
         for has in (True, False):
